@@ -780,7 +780,16 @@ func (st *state) applyDefaults(instancep reflect.Value, schema *Schema) (err err
 						if err := st.applyDefaults(lvalue, subschema); err != nil {
 							return err
 						}
-						instance.SetMapIndex(mapKey(instance, prop), lvalue.Elem())
+						// Insert the container only if it received a default. It can stay
+						// empty when the map's element type cannot hold the nested values
+						// (for example, a map[string]map[string]int two levels above a default).
+						filled := lvalue.Elem()
+						if filled.Kind() == reflect.Interface {
+							filled = filled.Elem()
+						}
+						if filled.Kind() != reflect.Map || filled.Len() > 0 {
+							instance.SetMapIndex(mapKey(instance, prop), lvalue.Elem())
+						}
 					}
 				}
 			case reflect.Struct:
